@@ -500,8 +500,12 @@ def secured_raw(scheme):
         "openapi": "3.0.2", "info": {"title": "t", "version": "1"},
         "components": {"securitySchemes": {"sec": sec}},
         "security": [{"sec": []}],
-        "paths": {f"/s{i}": {"get": {"parameters": [{"name": "q", "in": "query", "schema": {"type": "integer"}}],
-                                     "responses": {"200": {"description": "ok"}, "401": {"description": "no"}}}} for i in range(3)},
+        # linked (s0 -> s1 -> s2) so that the stateful phase has scenarios with several steps after a probed response
+        "paths": {f"/s{i}": {"get": {"operationId": f"s{i}", "parameters": [{"name": "q", "in": "query", "schema": {"type": "integer"}}],
+                                     "responses": {"200": {"description": "ok", "content": {"application/json": {"schema": {"type": "object"}}},
+                                                           **({"links": {"next": {"operationId": f"s{i + 1}", "parameters": {
+                                                               "q": "$response.body#/id"}}}} if i < 2 else {})},
+                                                   "401": {"description": "no"}}}} for i in range(3)},
     }
 
 
@@ -524,7 +528,7 @@ def probe_runs(chk, n):
             auth = {"bearer": request.headers.get("Authorization"), "query": request.args.get("api_key"),
                     "cookie": request.cookies.get("api_key"), "header": request.headers.get("X-API-Key")}[scheme]
             log.append({"path": "/" + p, "auth": auth, "case": request.headers.get("X-Schemathesis-TestCaseId")})
-            return (jsonify({}), 200) if auth == secret else (jsonify({}), 401)
+            return (jsonify({"id": 5}), 200) if auth == secret else (jsonify({}), 401)
         workers = rng.choice([1, 2])
         net, ov = {}, None
         if scheme == "bearer":
@@ -536,7 +540,9 @@ def probe_runs(chk, n):
             ov = Override(**cfg)
         with Server(app) as srv:
             schema = E.load_schema(srv.url, raw=secured_raw(scheme))
-            base = E.engine_config(phases=[PhaseName.COVERAGE, PhaseName.FUZZING], workers=workers, max_examples=4,
+            phases = [PhaseName.COVERAGE, PhaseName.FUZZING] if i % 4 >= 2 else [PhaseName.STATEFUL_TESTING]
+            chk.feature(f"probe-phases:{'+'.join(p.name for p in phases)}")
+            base = E.engine_config(phases=phases, workers=workers, max_examples=4, stateful_step_count=4,
                                    seed=rng.randint(1, 9999), checks=[ignored_auth])
             cfg = EngineConfig(execution=base.execution, network=NetworkConfig(headers=net), override=ov)
             evs = E.run_engine(schema, cfg)
@@ -1306,6 +1312,58 @@ def session_publication(chk):
                               {"mechanism": "session_publication", "hold_at": hold_at, "seen": {k: str(v) for k, v in seen.items()}})
 
 
+def registration_forms(chk):
+    """Every documented way of installing a provider gives the same provider: `storage.register(...)(P)`,
+    `storage(...)(P)`, `storage.apply(P, ...)(test)` and `storage(P, ...)(test)`, with the same `refresh_interval` /
+    `cache_by_key`.  Judged on behaviour: over a sequence of cases of two operations inside one refresh interval the token
+    set on each case is the one fetched for ITS cache key, and each key is fetched once."""
+    from schemathesis import auths
+    from schemathesis.auths import AuthContext
+    schema = E.load_schema("http://127.0.0.1:9", raw=FILTER_RAW)
+    seq = [("/a", "GET"), ("/b", "GET"), ("/a", "POST"), ("/b", "DELETE"), ("/a", "GET")]
+    for form in ("register", "call", "apply", "call-with-class"):
+        for keyed in (False, True):
+            fetched = []
+
+            class P:
+                def get(self, case, ctx):
+                    fetched.append(case.operation.path)
+                    return "tok:" + case.operation.path
+
+                def set(self, case, data, ctx):
+                    case.headers = CaseInsensitiveDict({"X-Token": data})
+            kw = {"refresh_interval": 300}
+            if keyed:
+                kw["cache_by_key"] = lambda case, ctx: case.operation.path
+            root = auths.AuthStorage()
+            if form == "register":
+                root.register(**kw)(P)
+                storage = root
+            elif form == "call":
+                root(**kw)(P)
+                storage = root
+            else:
+                def test():
+                    pass
+                (root.apply(P, **kw) if form == "apply" else root(P, **kw))(test)
+                storage = auths.AuthStorageMark.get(test)
+            got = []
+            for path, method in seq:
+                case = schema[path][method].Case()
+                auths.set_on_case(case, AuthContext(operation=case.operation, app=None), storage)
+                got.append((case.headers or {}).get("X-Token"))
+            want_tokens = ["tok:" + p_ for p_, _ in seq] if keyed else ["tok:/a"] * len(seq)
+            want_fetches = ["/a", "/b"] if keyed else ["/a"]
+            chk.case("auth:registration-forms", key=[form, keyed], nontrivial=True,
+                     sample={"form": form, "cache_by_key": keyed, "tokens": got, "fetches": fetched})
+            chk.feature(f"auth:registration-form={form}:keyed={keyed}")
+            if got != want_tokens or fetched != want_fetches:
+                chk.violation(f"C14:AuthStorage:{form}:provider-installed-without-the-given-caching-options",
+                              f"provider installed through `{form}` with cache_by_key={'path' if keyed else None}: tokens set "
+                              f"{got}, fetches {fetched}; by the options {want_tokens}, {want_fetches}",
+                              {"mechanism": "registration_forms", "form": form, "keyed": keyed, "tokens": got, "fetches": fetched})
+
+
 def run(chk):
     chk.proved += ["prepare_headers_user_wins / prepare_headers_keeps_case", "update_wins / update_keeps / "
                    "explicit_survives_merge / override_wins", "strategy_headers_complete", "test_storage_first / "
@@ -1341,6 +1399,7 @@ def run(chk):
     cache_threads(chk, chk.budget(4, 30))
     serialize_case_auth(chk)
     session_publication(chk)
+    registration_forms(chk)
     canary_runs(chk, chk.budget(8, 60))
     probe_runs(chk, chk.budget(4, 30))
     variant = detect_kwargs_variant(chk)
